@@ -744,4 +744,99 @@ def legacyPush (strict : Bool) (ls : List LegacyLayer) (man : List Resp) : List 
   if r.2 then ((r.1 ++ (legacyManifest strict man).1), (legacyManifest strict man).2)
   else (r.1, false)
 
+/-! ## Two legacy pushes sharing one upload (`blobUploadManager`)
+
+  Push A finds the layer absent, publishes a `blobUpload` (`LoadOrStore` miss) and opens the upload
+  session (`Prepare`'s POST).  While that POST is outstanding, push B — same layer — finds the
+  layer absent too, hits the published upload (`LoadOrStore` hit) and goes straight to `Wait`.
+  There is ONE transfer: A's `Prepare`, then `Run` (PATCH tries, commit tries).  `Wait` returns
+  `b.err` once `b.done || b.err != nil`; `Run` sets `err` (PATCH tries exhausted) or `err, done`
+  (after the commit tries).  If `Prepare` fails, `Run` is never started and neither field is ever
+  set: A returns the error, B polls until its own context ends (it hangs; it never reports success).
+  When B's context ends while it is the only one in `Wait` (A is still in `Prepare`), its
+  `release()` drops the reference count to 0 and calls the upload's `CancelFunc`: the transfer
+  A starts afterwards runs on a cancelled context, sends nothing and fails — A fails too. -/
+
+/-- how the session POST of the owner ends -/
+inductive PostEnd where
+  | answered (rs : List Resp)
+  | transport            -- the request fails without an answer
+  | ownerCancelled       -- A's context ends while the POST is outstanding
+deriving Repr
+
+structure Shared where
+  headB : List Resp          -- B's own HEAD exchange (A's is answered 404)
+  post : PostEnd
+  cancelB : Bool             -- B's context ends while the POST is outstanding
+  patch : List (List Resp)
+  commit : List (List Resp)
+  manA : List Resp
+  manB : List Resp
+deriving Repr
+
+/-- the single transfer: the requests of the POST exchange, of the PATCH and commit tries, and
+    how it ended: `none` — `Prepare` failed, `Run` never started (waiters see nothing);
+    `some ok` — `Run` ended and published `err` (`ok = false`) or `done` without error -/
+def sharedTransfer (strict : Bool) (s : Shared) (bLeft : Bool) : List LegEv × Option Bool :=
+  match s.post with
+  | .transport => ([.req 0 1 .post 0], none)
+  | .ownerCancelled => ([.req 0 1 .post 0], none)
+  | .answered rs =>
+    let p := exchange .post .none rs
+    let pev := p.1.map fun (q : Method × Nat) => LegEv.req 0 1 q.1 q.2
+    match mrr strict p.2 with
+    | .ok r =>
+      if !r.loc then (pev, some false)
+      else if bLeft then (pev, some false)       -- the run context was cancelled by B's release()
+      else
+        let a := triesX 0 2 .patch .stream (patchOk strict) maxRetries s.patch
+        match a.2 with
+        | none => (pev ++ a.1, some false)
+        | some ra =>
+          if !ra.loc then (pev ++ a.1, some false)
+          else
+            let c := triesX 0 3 .put .none (commitOk strict) maxRetries s.commit
+            (pev ++ a.1 ++ c.1, some c.2.isSome)
+    | _ => (pev, none)
+
+/-- what B's own HEAD makes of it: `some true` — joins the shared upload; `some false` — the
+    registry "has" the layer, B needs no upload; `none` — the HEAD fails, B fails -/
+def bJoins (strict : Bool) (s : Shared) : Option Bool :=
+  match mrr strict (exchange .head .none s.headB).2 with
+  | .notFound => some true
+  | .ok _ => some false
+  | .err => none
+
+structure SharedResult where
+  logA : List LegEv
+  okA : Bool
+  logB : List LegEv
+  okB : Bool
+  logT : List LegEv
+deriving Repr
+
+/-- both pushes: each sends its manifest iff its `uploadBlob` returned nil -/
+def sharedPush (strict : Bool) (s : Shared) : SharedResult :=
+  let hb := (exchange .head .none s.headB).1.map fun (q : Method × Nat) => LegEv.req 0 0 q.1 q.2
+  let joined := bJoins strict s == some true
+  let t := sharedTransfer strict s (joined && s.cancelB)
+  let ownerGone := match s.post with
+    | .ownerCancelled => true
+    | _ => false
+  -- A: the transfer's result, unless its own context ended
+  let aGood := !ownerGone && t.2 == some true
+  let ma := legacyManifest strict s.manA
+  let mb := legacyManifest strict s.manB
+  -- B: joined → the transfer's result unless B left (or hangs when nothing is ever published);
+  --    not joined → its HEAD decides
+  let bGood := match bJoins strict s with
+    | some true => !s.cancelB && t.2 == some true
+    | some false => true
+    | none => false
+  { logA := LegEv.req 0 0 .head 404 :: (if aGood then ma.1 else []),
+    okA := aGood && ma.2,
+    logB := hb ++ (if bGood then mb.1 else []),
+    okB := bGood && mb.2,
+    logT := t.1 }
+
 end OllamaVerif.Registry
